@@ -18,6 +18,7 @@ CONSTANTS
   HookExcs = {"badvalue"}
   Inits = {1}
   Layouts = {10}
+  CExcs = {"other"}
 INVARIANT Consistent
 PROPERTY LimitsRespected
 PROPERTY ControlFrame
